@@ -148,14 +148,30 @@ def strip_lean_comments(src: str) -> str:
     return "".join(out)
 
 
-def forbidden_tokens() -> list[str]:
+def import_closure(targets: list[str]) -> list[Path]:
+    """Lean source files of this project reachable from `targets` through `import` lines."""
+    seen, todo = {}, list(targets)
+    while todo:
+        m = todo.pop()
+        if m in seen:
+            continue
+        f = LEAN / (m.replace(".", "/") + ".lean")
+        if not f.exists():
+            continue
+        seen[m] = f
+        for im in re.findall(r"^\s*import\s+([\w.]+)", f.read_text(), re.M):
+            if im.startswith(("PydraModel", "Drivers")):
+                todo.append(im)
+    return sorted(seen.values())
+
+
+def forbidden_tokens(targets: list[str] | None = None) -> list[str]:
+    """Forbidden constructs (outside comments) in the import closure of `targets` (all model files if None)."""
     hits = []
-    for f in sorted(LEAN.glob("PydraModel/**/*.lean")) + sorted(LEAN.glob("Drivers/*.lean")):
+    files = import_closure(targets) if targets else sorted(LEAN.glob("PydraModel/**/*.lean"))
+    for f in files:
         txt = strip_lean_comments(f.read_text())
         for m in FORBIDDEN.finditer(txt):
-            # `unsafe`/`partial` IO loops are allowed only in Drivers (never imported by theorems)
-            if f.parent.name == "Drivers":
-                continue
             line = txt.count("\n", 0, m.start()) + 1
             hits.append(f"{f.relative_to(LEAN)}:{line}:{m.group(0).strip()}")
     return hits
@@ -370,7 +386,7 @@ def run_property(pid: str, tier: str, seed: int, replay: str | None = None) -> i
             if not ok:
                 # which obligations survive?  build the model/spec modules alone so the driver may still run
                 lake_build(list(getattr(mod, "MODEL_TARGETS", [])))
-            proof_state["forbidden"] = forbidden_tokens()
+            proof_state["forbidden"] = forbidden_tokens(targets)
             if ok and obligations:
                 proof_state["audit"] = audit_axioms(pid, targets, obligations)
             if tier == "thorough" and ok:
